@@ -195,9 +195,24 @@ func arrParts(s string) (string, string) {
 func arrElem(s string) string { _, e := arrParts(s); return e }
 func arrIdx(s string) string  { i, _ := arrParts(s); return i }
 
+func isZeroBV(t Term) bool { return strings.HasPrefix(t.S, "(_ bv0 ") }
+
 func BVOp(op string, a, b Term) Term {
 	if a.Sort != b.Sort {
 		panic(fmt.Sprintf("BVOp %s sort mismatch: %s:%s vs %s:%s", op, a.S, a.Sort, b.S, b.Sort))
+	}
+	switch op {
+	case "bvadd":
+		if isZeroBV(a) {
+			return b
+		}
+		if isZeroBV(b) {
+			return a
+		}
+	case "bvsub":
+		if isZeroBV(b) {
+			return a
+		}
 	}
 	return app(a.Sort, op, a, b)
 }
